@@ -25,6 +25,16 @@ CHECKS = {
              'swallowed by an unterminated instance/string are exempt from confinement. Known defects are in known_findings.json.',
         technique='exhaustive single-fault enumeration over structured inputs on the real reader + confinement oracle',
         ref='3/C03'),
+    'C09': dict(
+        text='Classical exhaustive enumeration at the attribute seam: for each simple kind ALL strings up to length 4-5 (thorough 6-7) over the kind\'s '
+             'alphabet plus boundary numerals, each in 6 delimiter contexts, are read by the real STEPattribute::STEPread (1.6 M reads in the quick tier) '
+             'and judged by a grammar recogniser + value function written from the BNF, with a liberal reading for the documented leniencies; the '
+             'stream position after every read must be the delimiter. Writer: integers within 2 of every power of two/ten, reals m*10^e for e in '
+             '-300..300 x 9 mantissas, read->write->read of boundary tokens.',
+        note='Trusted: p21ref recognisers. Weaker readings: a properly quoted string/binary with a bad escape / first digit may be kept verbatim; '
+             'underflowing reals and in-band null sentinels are not judged; #+1 is read as #1.',
+        technique='exhaustive enumeration of all short strings over an alphabet on the real scanner vs grammar recogniser',
+        ref='3/C09'),
     'C14': dict(
         text='Exhaustive enumeration of append histories on the real STEPfile: every sequence Read(A) Append(B) [Append(C)] over 8 reference patterns '
              '(plain, aggregate, select, complex part, forward ...) x 6 id patterns (identical dense ids, sparse, around 1000/2000, large, reversed); every '
